@@ -192,11 +192,13 @@ def run(prog: Program, rep, tier: str) -> None:
     sp_calls = [n for n in own_nodes(sv.node) if is_method_call(n, "_set_path")]
     for c in sp_calls:
         s2 = ff.stmt_of(c)
-        a = [U(ff.resolved(s2.stmt, x)) for x in c.args]
         pv = U(ff.resolved(s2.stmt, ast.Name(id=N["path"] or "path", ctx=ast.Load())))
         tv = U(ff.resolved(s2.stmt, ast.Name(id=N["times"] or "path_times", ctx=ast.Load())))
+        from ..symex import simplify_under
+        a = [U(simplify_under(ff.resolved(s2.stmt, x), s2.facts)) for x in c.args]
         ok = len(a) == 2 and a[0] == f"np.vstack({pv}).T" and a[1] == f"np.hstack({tv})"
         rep.check(ok, "result-fields", sv.qualname, short(s2.stmt), "_set_path receives the stacked path (one column per point) and the stacked model times", sv.loc(c))
+    path_shape_dims(prog, rep, rv.get("problem"), sv, res[0])
     dist_factor(prog, rep, L, res[0], si)
     pass_through(prog, rep)
     # announcements go to this solver's own registry
@@ -204,6 +206,65 @@ def run(prog: Program, rep, tier: str) -> None:
     cb = [n for n in own_nodes(init.node) if isinstance(n, ast.Assign) and any(U(t) == "self.callbacks" for t in n.targets)]
     ok = len(cb) == 1 and isinstance(cb[0].value, ast.Call) and dotted(cb[0].value.func) == "Callbacks" and not cb[0].value.args
     rep.check(ok, "own-callback-registry", init.qualname, short(cb[0]) if cb else "self.callbacks", "every Solver creates its own callback registry (announcements cannot leak between solvers)", init.loc())
+
+
+def path_shape_rule(prog, rep) -> None:
+    """entry point for C06 (the _set_path assertion must be unreachable)."""
+    sv = prog.func("pygradflow.solver.Solver.solve")
+    ff = facts_for(sv)
+    res = [n for n in own_nodes(sv.node) if isinstance(n, ast.Call) and dotted(n.func) == "SolverResult"]
+    if len(res) != 1:
+        raise AnalysisError("Solver.solve builds not exactly one SolverResult")
+    b = bind_args(prog.func("pygradflow.result.SolverResult.__init__"), res[0])
+    if b is None or "problem" not in b:
+        raise AnalysisError("cannot bind SolverResult arguments")
+    path_shape_dims(prog, rep, U(ff.resolved(ff.stmt_of(res[0]).stmt, b["problem"])), sv, res[0])
+
+
+def path_shape_dims(prog, rep, problem_arg, sv, res_call) -> None:
+    """_set_path asserts path.shape == (num_vars + num_cons, #times); the recorded columns are the z = (x, y) of iterates of
+    the TRANSFORMED problem (slacks included), so the two dimensions must be read off the transformed problem the solver
+    passes - not off the restored x / y, whose slack block is stripped."""
+    sr = prog.cls("pygradflow.result.SolverResult")
+    sp_ = sr.methods.get("_set_path")
+    if sp_ is None:
+        raise AnalysisError("SolverResult._set_path not found")
+    ff = facts_for(sp_)
+    pth = [p for p in sp_.params if p != "self"][0]
+    dims = None
+    for s in ff.order:
+        if isinstance(s.stmt, ast.Assert):
+            t = ff.resolved(s.stmt, s.stmt.test)
+            if isinstance(t, ast.Compare) and len(t.ops) == 1 and isinstance(t.ops[0], ast.Eq):
+                for a, b in ((t.left, t.comparators[0]), (t.comparators[0], t.left)):
+                    if U(a) == f"{pth}.shape" and isinstance(b, ast.Tuple) and len(b.elts) == 2:
+                        dims = b.elts[0]
+    if dims is None:
+        rep.note("SolverResult._set_path asserts nothing about the number of rows of the path")
+        return
+    attrs = sorted({U(n) for n in ast.walk(dims) if isinstance(n, ast.Attribute) and isinstance(n.value, ast.Name) and n.value.id == "self"})
+    init = sr.methods["__init__"]
+    fi_ = facts_for(init)
+    pr = [p for p in init.params if p != "self"][0]
+    srcs = {}
+    for s in fi_.order:
+        if isinstance(s.stmt, (ast.Assign, ast.AnnAssign)):
+            tgs = s.stmt.targets if isinstance(s.stmt, ast.Assign) else [s.stmt.target]
+            for t in tgs:
+                for el in (t.elts if isinstance(t, ast.Tuple) else [t]):
+                    if U(el) in attrs:
+                        srcs.setdefault(U(el), []).append(U(fi_.resolved(s.stmt, s.stmt.value)) if not isinstance(t, ast.Tuple) else "unpack:" + U(fi_.resolved(s.stmt, s.stmt.value)))
+    want = {f"{pr}.num_vars", f"{pr}.num_cons"}
+    got = {v for vs in srcs.values() for v in vs}
+    ok = isinstance(dims, ast.BinOp) and isinstance(dims.op, ast.Add) and len(attrs) == 2 and got == want and all(len(v) == 1 for v in srcs.values())
+    rep.check(ok, "path-shape-dims", init.qualname, "self.num_vars / self.num_cons",
+              f"the row count _set_path asserts, {U(dims)}, is num_vars + num_cons of the problem object handed to the result (sources found: {sorted(got)})", init.loc())
+    sinit = prog.func("pygradflow.solver.Solver.__init__")
+    fs = facts_for(sinit)
+    st = [s for s in fs.order if isinstance(s.stmt, ast.Assign) and any(U(t) == "self.problem" for t in s.stmt.targets)]
+    ok2 = problem_arg == "self.problem" and len(st) == 1 and U(fs.resolved(st[0].stmt, st[0].stmt.value)).endswith(".trans_problem")
+    rep.check(ok2, "path-shape-dims", sv.qualname, "SolverResult(problem, ...)",
+              f"the result is built for the transformed problem, whose iterates form the path (argument: {problem_arg})", sv.loc(res_call))
 
 
 def pass_through(prog, rep) -> None:
